@@ -236,6 +236,36 @@ Bin(S, I, r) ==
    IF r.t = -1 THEN TrapR(S, r.n[4]) ELSE IF r.t = -2 THEN Unspec(S, UnspecReasons[r.n[4]]) ELSE Ok(Adv(Push(PopN(S, 2), r), I))
 Need(S, k, res) == IF CanPop(S, k) THEN res ELSE Unspec(S, "pops below the operand region")
 
+\* ---------------------------------------------------------------- hash maps
+KeyIdx(vs, key) ==       \* index i of the pair whose key equals `key`: 0 = none, -1 = cannot be decided here
+   LET n == Len(vs) \div 2
+       undec == \E i \in 1..n : vs[2 * i - 1].t # key.t \/ Eq3(vs[2 * i - 1], key) = "?"
+       hit == {i \in 1..n : Eq3(vs[2 * i - 1], key) = "T"} IN
+   IF key.t \notin {TInt, TStr, TBool, TEnum} \/ (key.t = TStr /\ ~IsStr(key)) \/ undec THEN -1
+   ELSE IF hit = {} THEN 0 ELSE CHOOSE i \in hit : \A j \in hit : i <= j
+MapOp(S, I, npop, newid) ==
+   IF ~CanPop(S, npop) THEN Unspec(S, "pops below the operand region")
+   ELSE LET m == Peek(S, npop - 1) IN
+        IF m.t # TMap THEN TrapR(S, ErrType)
+        ELSE IF ~Known(S, m, TMap) THEN Unspec(S, "operand is not a live object")
+        ELSE LET vs == S.heap[m.o].v
+                 n == Len(vs) \div 2
+                 key == IF I.op = "HM_SET" THEN Peek(S, 1) ELSE Top(S)
+                 i == IF npop >= 2 THEN KeyIdx(vs, key) ELSE 0
+                 S1 == PopN(S, npop) IN
+             IF i = -1 THEN Unspec(S, "key kind outside the modelled domain")
+             ELSE CASE I.op = "HM_LEN" -> Ok(Adv(Push(S1, IntV(I64FromNat(n))), I))
+                    [] I.op = "HM_GET" ->       \* absent key: the default of the map's value type ("" for strings, else 0; commit 85d94b8, docs: map_get)
+                         Ok(Adv(Push(S1, IF i # 0 THEN vs[2 * i] ELSE IF S.heap[m.o].m[2] = TStr THEN StrV(<<>>) ELSE IntV(I64Zero)), I))
+                    [] I.op = "HM_HAS" -> Ok(Adv(Push(S1, BoolV(i # 0)), I))
+                    [] I.op = "HM_SET" -> Ok(Adv(Push([S1 EXCEPT !.heap[m.o].v = IF i = 0 THEN vs \o <<key, Top(S)>> ELSE [vs EXCEPT ![2 * i] = Top(S)]], m), I))
+                    [] I.op = "HM_DELETE" -> Ok(Adv(Push([S1 EXCEPT !.heap[m.o].v = IF i = 0 THEN vs ELSE SubSeq(vs, 1, 2 * i - 2) \o SubSeq(vs, 2 * i + 1, Len(vs))], m), I))
+                    [] I.op \in {"HM_KEYS", "HM_VALUES"} ->        \* a fresh array, in the order of the association list
+                         LET off == IF I.op = "HM_KEYS" THEN 1 ELSE 0
+                             ty == S.heap[m.o].m[IF I.op = "HM_KEYS" THEN 1 ELSE 2] IN
+                         IF newid <= 0 THEN Ok(Adv(Push(S1, RefV(TArr, -3)), I))
+                         ELSE Ok(Adv(Push(Alloc(S1, newid, Obj(TArr, ty, 0, [j \in 1..n |-> vs[2 * j - off]])), RefV(TArr, newid)), I))
+
 Step(S, I, E) ==
    LET op == I.op  a == I.a IN
    CASE op \in {"NOP", "DEBUG_LINE", "GC_SCOPE_ENTER", "GC_SCOPE_EXIT"} -> Ok(Adv(S, I))
@@ -401,12 +431,16 @@ Step(S, I, E) ==
      [] op = "ENUM_VAL" -> Ok(Adv(Push(S, EnumV(a[2])), I))
      [] op = "TUPLE_NEW" -> Build(S, I, E, TTuple, 0, 0, a[1])
      [] op = "TUPLE_GET" -> FieldGet(S, I, TTuple, a[1])
-     \* ---- hash maps: creation and size only (the order of the entries depends on the hash function)
+     \* ---- hash maps: heap[m].v is the association list <<k1, v1, k2, v2, ...>> (in the trace: in bucket order).  Keys are compared
+     \* with val_equal; lookups are specified for keys of the kind of the keys already present (int, string, bool, enum), for which the
+     \* hash function agrees with equality.  Where a new entry goes is not prescribed: maps are matched as sets of pairs (PairsMatch).
      [] op = "HM_NEW" -> Build(S, I, E, TMap, a[1], a[2], 0)
-     [] op = "HM_LEN" ->
-          Need(S, 1, LET m == Top(S) IN
-                     IF m.t # TMap THEN TrapR(S, ErrType) ELSE IF ~Known(S, m, TMap) THEN Unspec(S, "operand is not a live object")
-                     ELSE Ok(Adv(Push(PopN(S, 1), IntV(I64FromNat(Len(S.heap[m.o].v) \div 2))), I)))
+     [] op = "HM_LEN" -> MapOp(S, I, 1, 0)
+     [] op = "HM_GET" -> MapOp(S, I, 2, 0)
+     [] op = "HM_HAS" -> MapOp(S, I, 2, 0)
+     [] op = "HM_DELETE" -> MapOp(S, I, 2, 0)
+     [] op = "HM_SET" -> MapOp(S, I, 3, 0)
+     [] op \in {"HM_KEYS", "HM_VALUES"} -> MapOp(S, I, 1, E.newid)
      \* ---- casts
      [] op = "CAST_INT" ->
           Need(S, 1, LET v == Top(S) IN
@@ -436,17 +470,24 @@ Step(S, I, E) ==
      [] op = "OPAQUE_NULL" -> Ok(Adv(Push(S, Val(TOpaque, I64Zero, <<>>, 0, 0)), I))
      [] op = "OPAQUE_VALID" -> Need(S, 1, Un(S, I, BoolV(Top(S).t = TOpaque /\ Top(S).n # I64Zero)))
      [] op = "?" -> TrapR(S, ErrDecode)
-     \* HM_GET HM_SET HM_HAS HM_DELETE HM_KEYS HM_VALUES CALL_MODULE and anything new
+     \* CALL_MODULE and anything new
      [] OTHER -> Unspec(S, "opcode not specified")
+
+\* the containers an instruction can create or modify: the new one, those referenced by its (at most three) topmost operands, the
+\* closure of the current frame.  Everything else in the heap must be left alone (the trace check compares those and every container
+\* the VM was seen to change).
+Touched(S, E) ==
+   {E.newid} \cup {S.stack[i].o : i \in {j \in (Len(S.stack) - 2)..Len(S.stack) : j >= 1}}
+             \cup (IF Len(S.frames) = 0 THEN {} ELSE {S.frames[Len(S.frames)].clo})
 
 Specified == {"NOP", "DEBUG_LINE", "GC_SCOPE_ENTER", "GC_SCOPE_EXIT", "PUSH_I64", "PUSH_F64", "PUSH_STR", "PUSH_BOOL", "PUSH_VOID", "PUSH_U8", "DUP", "POP",
    "GC_RELEASE", "GC_RETAIN", "SWAP", "ROT3", "LOAD_LOCAL", "STORE_LOCAL", "LOAD_GLOBAL", "STORE_GLOBAL", "LOAD_UPVALUE", "STORE_UPVALUE", "ADD", "SUB", "MUL", "DIV", "MOD",
    "NEG", "EQ", "NE", "LT", "LE", "GT", "GE", "AND", "OR", "NOT", "JMP", "JMP_TRUE", "JMP_FALSE", "MATCH_TAG", "CALL", "CALL_INDIRECT", "CLOSURE_CALL", "RET", "CALL_EXTERN",
    "STR_LEN", "STR_CONCAT", "STR_EQ", "STR_CONTAINS", "STR_CHAR_AT", "STR_SUBSTR", "STR_FROM_INT", "STR_FROM_FLOAT", "ARR_NEW", "ARR_LITERAL", "ARR_PUSH", "ARR_POP",
    "ARR_GET", "ARR_SET", "ARR_LEN", "ARR_SLICE", "ARR_REMOVE", "STRUCT_NEW", "STRUCT_LITERAL", "STRUCT_GET", "STRUCT_SET", "UNION_CONSTRUCT", "UNION_TAG", "UNION_FIELD",
-   "ENUM_VAL", "TUPLE_NEW", "TUPLE_GET", "HM_NEW", "HM_LEN", "CAST_INT", "CAST_FLOAT", "CAST_BOOL", "CAST_STRING", "TYPE_CHECK", "CLOSURE_NEW", "PRINT", "PRINTLN",
+   "ENUM_VAL", "TUPLE_NEW", "TUPLE_GET", "HM_NEW", "HM_LEN", "HM_GET", "HM_HAS", "HM_SET", "HM_DELETE", "HM_KEYS", "HM_VALUES", "CAST_INT", "CAST_FLOAT", "CAST_BOOL", "CAST_STRING", "TYPE_CHECK", "CLOSURE_NEW", "PRINT", "PRINTLN",
    "ASSERT", "HALT", "OPAQUE_NULL", "OPAQUE_VALID"}
-Unspecified == {"HM_GET", "HM_SET", "HM_HAS", "HM_DELETE", "HM_KEYS", "HM_VALUES", "CALL_MODULE"}
+Unspecified == {"CALL_MODULE"}
 
 \* ------------------------------------------------------- the host's part
 \* vm_call_function: the callee's frame is set up by the host (arguments, if any, are the first locals)
